@@ -633,6 +633,12 @@ impl LyNative for ListSort {
 
     hooks.pop_roots(1);
 
+    // an error raised by the comparator or caused by what it
+    // returned ends the sort
+    if let Some(failure) = failure {
+      return failure;
+    }
+
     Call::Ok(val!(list))
   }
 }
